@@ -128,16 +128,25 @@ class Ctx:
             for t in theorems:
                 self.oblige("theorem " + t, "theorem", False, "library does not build")
             return False
-        # forbidden tokens in all library sources that this property imports (conservative: all of MjProof/)
+        # forbidden tokens in every project source this property's module imports (transitively)
         bad = []
-        for dp, _, fn in os.walk(os.path.join(LEAN, "MjProof")):
-            for f in fn:
-                if f.endswith(".lean"):
-                    p = os.path.join(dp, f)
-                    m = FORBIDDEN.search(strip_lean_comments(open(p).read()))
-                    if m:
-                        bad.append("%s: %s" % (os.path.relpath(p, LEAN), m.group(0).strip()))
-        self.oblige("no sorry/admit/axiom/native_decide in lean/MjProof", "audit", not bad, "; ".join(bad))
+        todo, seen = [module] + list(extra_modules), set()
+        while todo:
+            mod = todo.pop()
+            if mod in seen or not mod.startswith("MjProof"):
+                continue
+            seen.add(mod)
+            p = os.path.join(LEAN, *mod.split(".")) + ".lean"
+            if not os.path.exists(p):
+                continue
+            src = strip_lean_comments(open(p).read())
+            m = FORBIDDEN.search(src)
+            if m:
+                bad.append("%s: %s" % (os.path.relpath(p, LEAN), m.group(0).strip()))
+            todo += re.findall(r"^\s*(?:public\s+)?import\s+([A-Za-z0-9_.]+)", src, re.M)
+        self.extra["lean_sources_audited"] = sorted(seen)
+        self.oblige("no sorry/admit/axiom/native_decide in the %d project files imported by %s" % (len(seen), module),
+                    "audit", not bad, "; ".join(bad))
         os.makedirs(os.path.join(LEAN, "Audit"), exist_ok=True)
         ap = os.path.join(LEAN, "Audit", self.pid + ".lean")
         with open(ap, "w") as f:
